@@ -67,6 +67,16 @@ def mk_bind(idx, ty, owned, rtype, named=True, pat="PIdent", access="val", name=
             "access": access, "spell": spell, "vtext": vtext}  # access: how the body holds it: val | mutval | ref | mutref | generic | genref | selfval | selfref | selfmut | copy
 
 
+# how the tail call that pins the future is written (AsyncInfo::from_fn recognises it by `path_to_string(callee).ends_with("Box::pin")`)
+PIN_FORMS = ["Box::pin", "std::boxed::Box::pin", "::std::boxed::Box::pin", "alloc::boxed::Box::pin", "::alloc::boxed::Box::pin",
+             "Box::<_>::pin", "std::boxed::Box::<_>::pin"]
+
+
+def pin_segments(form):
+    """the callee path's segment identifiers (no leading `::`, no generic arguments), as syn sees them"""
+    return [x.split("<")[0] for x in form.lstrip(":").split("::") if x and not x.startswith("<")]
+
+
 GROUP_KINDS = ["val", "mutval", "ref", "mutref", "generic", "genref", "impl", "u32", "bool", "str", "refu32", "tuple", "tuple_mixed",
                "struct", "tstruct", "reftuple", "wild", "structn"]
 
@@ -503,8 +513,9 @@ class Gen:
             body, live, div = self.stmts(shape, binds, set(live0), kind != "sync", 0, rng.randint(2, 7))
             tail, _ = self.shaped(shape, binds, live)
         attrs = self.attrs(kind, shape, binds)
+        pin = self.force.get("pin", rng.choice(["Box::pin"] * 4 + PIN_FORMS[1:])) if kind in ("boxed", "oldtrait") else None
         return {"idx": self.idx, "kind": kind, "recv": recv, "groups": groups, "binds": binds, "ret": shape, "body": body, "tail": tail,
-                "attrs": attrs}
+                "attrs": attrs, "pin": pin}
 
 
 def _tup(x):
@@ -537,7 +548,8 @@ def from_spec(spec, idx):
         if a[k] is not None:
             a[k] = {"level": a[k].get("level"), "mode": a[k].get("mode", "default")}
     return {"idx": idx, "kind": spec["kind"], "recv": recv, "groups": groups, "binds": binds, "ret": spec["ret"],
-            "body": _tup(spec["body"]), "tail": _tup(spec["tail"]), "attrs": a, "why": spec.get("why", "")}
+            "body": _tup(spec["body"]), "tail": _tup(spec["tail"]), "attrs": a, "why": spec.get("why", ""),
+            "pin": spec.get("pin", "Box::pin") if spec["kind"] in ("boxed", "oldtrait") else None}
 
 
 def build_corpus(n, seed, specs=()):
@@ -565,6 +577,10 @@ def build_generated(n, seed):
     for gk in GROUP_KINDS:
         forced.append({"groups": [gk, "val"], "kind": "sync"})
         forced.append({"groups": ["bool", gk], "kind": "async"})
+    # every spelling of the pinning call, for the async-block and the inner-async-fn shapes
+    for pf in PIN_FORMS[1:]:
+        forced.append({"kind": "boxed", "pin": pf})
+        forced.append({"kind": "oldtrait", "pin": pf, "recv": rng.choice([None, "ref"])})
     # every TYPES_FOR_VALUE entry in a qualified spelling and a second one cycling through the forms; bare ones as controls
     vts = sorted(VTYPES)
     for k, tn in enumerate(vts):
@@ -794,11 +810,12 @@ def render_fn(fn, twin, order_rng):
             inner.append(g["sig"])
             call.append("a%d" % k)
         return ("    %spub fn %s%s(%s) -> Pin<Box<dyn Future<Output = %s> + 'a>> {\n        async fn %s%s(%s) -> %s {\n%s        }\n"
-                "        Box::pin(%s(%s))\n    }\n"
-                % (attr, name, generics, ", ".join(outer), inner_t, helper, generics, ", ".join(inner), inner_t, body, helper, ", ".join(call)))
+                "        %s(%s(%s))\n    }\n"
+                % (attr, name, generics, ", ".join(outer), inner_t, helper, generics, ", ".join(inner), inner_t, body, fn.get("pin") or "Box::pin",
+                   helper, ", ".join(call)))
     if kind == "boxed":
-        return ("    %spub fn %s%s(%s) -> Pin<Box<dyn Future<Output = %s> + 'a>> {\n        Box::pin(async move {\n%s        })\n    }\n"
-                % (attr, name, generics, ", ".join(params), inner_t, body))
+        return ("    %spub fn %s%s(%s) -> Pin<Box<dyn Future<Output = %s> + 'a>> {\n        %s(async move {\n%s        })\n    }\n"
+                % (attr, name, generics, ", ".join(params), inner_t, fn.get("pin") or "Box::pin", body))
     return ("    %spub fn %s%s(%s) -> impl Future<Output = %s> + 'a {\n        async move {\n%s        }\n    }\n"
             % (attr, name, generics, ", ".join(params), inner_t, body))
 
@@ -927,6 +944,10 @@ def c_param(b):
 
 def c_func(fn):
     kind = {"sync": "KSync", "async": "KAsync", "boxed": "KBoxed", "implfut": "KBoxed", "oldtrait": "KHelper"}[fn["kind"]]
+    if fn["kind"] in ("boxed", "oldtrait"):
+        # the model decides from the callee as written whether the attribute sees "a fn returning a boxed future" at all
+        kind = "(kind_of_tail (match Gen_attr.gen_box_pin_suffix with Some s => s | None => EmptyString end) [%s] %s)" % (
+            "; ".join('"%s"%%string' % x for x in pin_segments(fn.get("pin") or "Box::pin")), kind)
     return "(mkFunc %s [%s] %s %s)" % (kind, "; ".join(c_param(b) for b in fn["binds"]), c_stmt(fn["body"]), c_expr(fn["tail"]))
 
 
@@ -972,7 +993,7 @@ def c_args(vals, cancel_site=None):
 def template_key(fn):
     a = fn["attrs"]
     return "%s/%s%s" % ({"sync": "sync", "oldtrait": "async-helper"}.get(fn["kind"], "async"), "ret" if a["ret"] else "", "err" if a["err"] else "") + \
-           ("" if a["ret"] or a["err"] else "plain")
+           ("" if a["ret"] or a["err"] else "plain") + ("" if (fn.get("pin") or "Box::pin") == "Box::pin" else "@" + fn["pin"])
 
 
 def pattern_key(fn):
